@@ -60,6 +60,11 @@ CLAIMED = {
         "text": "All numpy attribute chains of the modules of this property are resolved against the installed numpy stubs; arithmetic on the parent-id column must be masked against -1 or followed by a restore of every -1 row; the union-by-rank ladder is tabulated over the three orderings of the two ranks (smaller re-parented; equal: one re-parented, new root's rank +1), find compresses paths, is_same_set compares roots; the bifurcation predicate is tabulated over children 0..4 x root x exclude_root against 'reject iff children >= 3 and not exempt root'; the fix_roots literal and its match arms agree with a raising default and a 'several roots' guard; checker skeletons (single root, cyclic, sorted, component labelling through an id->position dict) and root-repair steps are matched; the only recursion is find_parent, bounded by the rank.",
         "note": ASSUME + " The installed numpy stubs describe the installed numpy.",
     },
+    "C19": {
+        "technique": "single-pass-iterable consumption lint joined with call-graph argument kinds, cache typestate rule, who-may-call check, bisect decision table",
+        "text": "Every Iterable/Iterator parameter of the population module is checked for being consumed at most once unless first rebound to a materialised copy; several passes become a violation when a strong call site passes a generator/map/zip/filter (otherwise reported as latent). The per-file cache slot has a single writer, guarded by `slot is None` with the same key and filled from the same-numbered file; indexing is normalise -> load -> read; construction creates empty slots only. Only the loader calls the file readers in the module, and the loader is reached only from indexing and the explicit eager arm; Population's constructor probes at most element 0. Chain indexing is tabulated over cumsum[mid] ? idx (bisect-right), member lo-1 at offset idx - cumsum[lo-1]. Multi-directory rows share one list object of common relative paths; rows and map preserve order (no unordered executor API).",
+        "note": ASSUME + " Executor.map / process_map return results in input order.",
+    },
 }
 
 NOT_BUILT = "check not built yet in this round (planned, see DESIGN.md section 4); nothing is claimed"
